@@ -102,12 +102,11 @@ std::string job_prog(const Args& a) {
         size_t src = e.xi(op.name == "xassign" ? op.arg(1) : op.arg(0));
         if (src < birthX.size()) srcFrozen = birthX[src], isCopy = true;
       }
-      size_t assignDst = (size_t)-1;
-      if (op.name == "assign" && !e.M.empty()) assignDst = e.mi(op.arg(0));
-      if (op.name == "xassign" && !e.X.empty()) assignDst = e.xi(op.arg(0));
       exec(e, op);
       opCount[op.name]++;
-      JArr fps;
+      JArr fps, ids, usedIds;
+      for (auto u : e.used) usedIds.i64((int64_t)u);
+      for (auto& p : e.produced) ids.i64((int64_t)(p.isX ? e.idX[p.idx] : e.idM[p.idx]));
       if (!lazy) {
         // materialise and observe everything this step produced
         std::vector<size_t> tooBigM;
@@ -120,6 +119,8 @@ std::string job_prog(const Args& a) {
               howX.resize(e.X.size());
               birthX[p.idx] = f;
               howX[p.idx] = op.text();
+              if (isCopy && f != srcFrozen)
+                addViol("C05", i, op.text(), "copy_differs_from_source:" + fp_diff(srcFrozen, f));
             }
           } else {
             MeshGL64 g;
@@ -147,25 +148,10 @@ std::string job_prog(const Args& a) {
           }
           if (wantFp) fps.str(f);
         }
-        if (c05 && assignDst != (size_t)-1) {
-          // the assigned-to slot now holds a copy of the source
-          if (op.name == "assign") {
-            std::string f = observe(e.M[assignDst], ord);
-            if (f != srcFrozen) addViol("C05", i, op.text(), "assigned_copy_differs:" + fp_diff(srcFrozen, f));
-            birthM[assignDst] = f;
-            howM[assignDst] = op.text();
-          } else {
-            std::string f = observeX(e.X[assignDst], ord);
-            if (f != srcFrozen) addViol("C05", i, op.text(), "assigned_copy_differs:" + fp_diff(srcFrozen, f));
-            birthX[assignDst] = f;
-            howX[assignDst] = op.text();
-          }
-        }
         // oversized results leave the pool (highest index first)
         std::sort(tooBigM.rbegin(), tooBigM.rend());
         for (size_t k : tooBigM) {
-          if (e.onErase) e.onErase(false, k);
-          e.M.erase(e.M.begin() + k);
+          e.eraseM(k);
         }
         int64_t salt = (int64_t)i;
         for (auto v : op.a) salt += v;
@@ -192,7 +178,7 @@ std::string job_prog(const Args& a) {
         for (auto v : op.a) salt += v;
         e.evict(salt);
       }
-      if (wantFp) steps.raw(JObj().str("op", op.text()).str("note", e.note).raw("fp", fps.done()).done());
+      if (wantFp) steps.raw(JObj().str("op", op.text()).str("note", e.note).raw("fp", fps.done()).raw("ids", ids.done()).raw("used", usedIds.done()).done());
     }
     if (lazy) {
       for (size_t j = 0; j < e.M.size(); j++) {
